@@ -142,6 +142,8 @@ Local(T, e) ==
                : i \in {i \in DOMAIN T.ms : T.ms[i].t \notin {"ref", "prim"}} }
    ELSE {})
   \cup (IF T.t = "inter" /\ Len(T.ms) >= 2 THEN { Res(Inter(Reverse(T.ms)), <<>>, "PermuteInter") } ELSE {})
+  \* a doc comment on an object-literal member of an intersection
+  \cup (IF T.t = "inter" THEN { Res([T EXCEPT !.ms[i] = Deco("jsdocm", T.ms[i])], <<>>, "AddJSDoc@member") : i \in {i \in DOMAIN T.ms : T.ms[i].t = "obj"} } ELSE {})
   \cup (IF T.t = "obj" /\ Len(T.ps) >= 2 THEN { Res([T EXCEPT !.ps = Reverse(T.ps)], <<>>, "PermuteProps") } ELSE {})
   \cup (IF T.t = "obj" /\ Len(T.ps) >= 1
         THEN { Res([T EXCEPT !.ps[i].ty = Deco("jsdoc", T.ps[i].ty)], <<>>, "AddJSDoc") : i \in DOMAIN T.ps }
